@@ -155,8 +155,23 @@ def fn_tokens(func):
 
 # --------------------------------------------------------------------------- spec -> real combinators
 
-def build(spec, fwd):
-    """spec (JSON-able nested lists) -> real parser objects, through the public API"""
+def build(spec, fwd, pool=None):
+    """spec (JSON-able nested lists) -> real parser objects, through the public API.
+    pool (a dict) = draw OBJECTS with repetition: every further occurrence of an equal sub-spec is the SAME Python object
+    (how real grammars are written: one WS / Comma / Number object used everywhere).  pool=None: a fresh object per
+    occurrence.  Both spellings denote the same term — a tree of occurrences."""
+    if pool is not None and spec[0] != "ref":
+        key = json.dumps(spec, sort_keys=True)
+        if key in pool:
+            pool["#hits"] = pool.get("#hits", 0) + 1
+            return pool[key]
+        obj = _build(spec, fwd, pool)
+        pool[key] = obj
+        return obj
+    return _build(spec, fwd, pool)
+
+
+def _build(spec, fwd, pool):
     k = spec[0]
     if k == "any":
         return P.AnyChar
@@ -173,7 +188,7 @@ def build(spec, fwd):
             return Literal(spec[1], ignore_case=spec[3])
         return Literal(spec[1], value=spec[2][0], ignore_case=spec[3])
     if k == "seq":
-        kids = [build(s, fwd) for s in spec[1]]
+        kids = [build(s, fwd, pool) for s in spec[1]]
         if spec[2] == "+" and len(kids) >= 2 and not isinstance(kids[0], Sequence):
             p = kids[0] + kids[1]
             for c in kids[2:]:
@@ -181,7 +196,7 @@ def build(spec, fwd):
             return p
         return Sequence(kids)
     if k == "cho":
-        kids = [build(s, fwd) for s in spec[1]]
+        kids = [build(s, fwd, pool) for s in spec[1]]
         if spec[2] == "|" and len(kids) >= 2 and not isinstance(kids[0], Choice):
             p = kids[0] | kids[1]
             for c in kids[2:]:
@@ -189,45 +204,92 @@ def build(spec, fwd):
             return p
         return Choice(kids)
     if k == "many":
-        return Many(build(spec[1], fwd), lower=spec[2])
+        return Many(build(spec[1], fwd, pool), lower=spec[2])
     if k == "until":
-        return build(spec[1], fwd).until(build(spec[2], fwd))
+        return build(spec[1], fwd, pool).until(build(spec[2], fwd, pool))
     if k == "opt":
-        return Opt(build(spec[1], fwd), spec[2]) if spec[2] is not None else Opt(build(spec[1], fwd))
+        return Opt(build(spec[1], fwd, pool), spec[2]) if spec[2] is not None else Opt(build(spec[1], fwd, pool))
     if k == "fb":
-        return build(spec[1], fwd) & build(spec[2], fwd)
+        return build(spec[1], fwd, pool) & build(spec[2], fwd, pool)
     if k == "nfb":
-        return build(spec[1], fwd) / build(spec[2], fwd)
+        return build(spec[1], fwd, pool) / build(spec[2], fwd, pool)
     if k == "kl":
-        return build(spec[1], fwd) << build(spec[2], fwd)
+        return build(spec[1], fwd, pool) << build(spec[2], fwd, pool)
     if k == "kr":
-        return build(spec[1], fwd) >> build(spec[2], fwd)
+        return build(spec[1], fwd, pool) >> build(spec[2], fwd, pool)
     if k == "map":
-        return build(spec[2], fwd).map(fn_map(spec[1]))
+        return build(spec[2], fwd, pool).map(fn_map(spec[1]))
     if k == "lift":
         p = Lift(fn_lift(spec[1]))
         for s in spec[2]:
-            p = p * build(s, fwd)
+            p = p * build(s, fwd, pool)
         return p
     if k == "sepby":
-        return build(spec[1], fwd).sep_by(build(spec[2], fwd))
+        return build(spec[1], fwd, pool).sep_by(build(spec[2], fwd, pool))
     if k == "wrap":
-        return Wrapper(build(spec[1], fwd))
+        return Wrapper(build(spec[1], fwd, pool))
     if k == "ref":
         return fwd[spec[1]]
     if k == "stag":
-        return StartTagName(build(spec[1], fwd))
+        return StartTagName(build(spec[1], fwd, pool))
     if k == "etag":
-        return EndTagName(build(spec[1], fwd), ignore_case=spec[2])
+        return EndTagName(build(spec[1], fwd, pool), ignore_case=spec[2])
     raise ValueError(k)
 
 
-def build_grammar(g):
-    """g = {"rules": [spec…], "top": spec} -> (top parser, [Forward…])"""
+def build_grammar(g, share=False):
+    """g = {"rules": [spec…], "top": spec} -> (top parser, [Forward…]); share: one object pool for the whole grammar"""
+    pool = {} if share else None
     fwd = [Forward() for _ in g["rules"]]
     for f, s in zip(fwd, g["rules"]):
-        f <= build(s, fwd)
-    return build(g["top"], fwd), fwd
+        f <= build(s, fwd, pool)
+    top = build(g["top"], fwd, pool)
+    if share:
+        build_grammar.hits = pool.get("#hits", 0)
+    return top, fwd
+
+
+def fn_spec_tokens(fs):
+    return [fs[0]] + (val_tokens(fs[1]) if len(fs) > 1 else [])
+
+
+def spec_term(spec):
+    """the term a spec denotes — one child per operand OCCURRENCE (what `build` is documented to give)"""
+    k = spec[0]
+    if k in ("any", "eof"):
+        return [k]
+    if k == "chr":
+        return ["chr", spec[1]]
+    if k == "set":
+        return ["set", "".join(sorted(set(spec[1])))]
+    if k == "str":
+        return ["str", "".join(sorted(set(spec[1]))), "".join(sorted(set(spec[2] or ""))), spec[3]]
+    if k == "lit":
+        return ["lit", spec[1].lower() if spec[3] else spec[1], None if spec[2] is None else [spec[2][0]], bool(spec[3])]
+    if k in ("seq", "cho"):
+        return [k, [spec_term(c) for c in spec[1]]]
+    if k == "many":
+        return ["many", spec_term(spec[1]), spec[2]]
+    if k == "opt":
+        return ["opt", spec_term(spec[1]), [spec[2]]]
+    if k in ("until", "fb", "nfb", "kl", "kr"):
+        return [k, spec_term(spec[1]), spec_term(spec[2])]
+    if k == "map":
+        return ["map", fn_spec_tokens(spec[1]), spec_term(spec[2])]
+    if k == "lift":
+        return ["lift", fn_spec_tokens(spec[1]), [spec_term(c) for c in spec[2]]]
+    if k == "sepby":
+        a, b = spec_term(spec[1]), spec_term(spec[2])
+        return ["lift", ["accum"], [["opt", a, [NO_MATCH]], ["many", ["kr", b, a], 0]]]
+    if k == "wrap":
+        return ["wrap", spec_term(spec[1])]
+    if k == "ref":
+        return ["ref", spec[1]]
+    if k == "stag":
+        return ["stag", spec_term(spec[1])]
+    if k == "etag":
+        return ["etag", spec_term(spec[1]), bool(spec[2])]
+    raise ValueError(k)
 
 
 # --------------------------------------------------------------------------- real object graph -> term
@@ -236,57 +298,122 @@ class Untranslatable(Exception):
     pass
 
 
-def walk(p, fwd_ids):
-    """the term the built object graph denotes (what the model and the reference evaluator run)"""
+class Shape(Untranslatable):
+    """a built parser object does not have the shape its class promises (number of children, attribute types):
+    never an exception of the harness — callers turn it into an oracle failure / broken tie"""
+
+
+ARITY = {}      # class -> number of children its constructor is documented to give (filled below)
+
+
+def _kids(p, path):
+    kids = getattr(p, "children", None)
+    if not isinstance(kids, list):
+        raise Shape("%s at %s has no children list (%r)" % (type(p).__name__, path or "top", type(kids).__name__))
+    want = ARITY.get(type(p))
+    if want is not None and len(kids) != want:
+        raise Shape("%s at %s has %d children, its %d operands each count as one child" % (
+            type(p).__name__, path or "top", len(kids), want))
+    for c in kids:
+        if not isinstance(c, Parser):
+            raise Shape("%s at %s has a child of type %s" % (type(p).__name__, path or "top", type(c).__name__))
+    return kids
+
+
+def _attr(p, name, types, path):
+    if not hasattr(p, name):
+        raise Shape("%s at %s has no attribute %s" % (type(p).__name__, path or "top", name))
+    v = getattr(p, name)
+    if types is not None and not isinstance(v, types):
+        raise Shape("%s.%s at %s is a %s" % (type(p).__name__, name, path or "top", type(v).__name__))
+    return v
+
+
+def _charset(p, name, path):
+    v = _attr(p, name, (set, frozenset, list, tuple, str), path)
+    if not all(isinstance(c, str) and len(c) == 1 for c in v):
+        raise Shape("%s.%s at %s is not a set of characters" % (type(p).__name__, name, path or "top"))
+    return "".join(sorted(set(v)))
+
+
+def walk(p, fwd_ids, path=""):
+    """the term the built object graph denotes (what the model and the reference evaluator run): a TREE OF
+    OCCURRENCES — an object referenced n times is walked n times, identity of the Python objects does not matter.
+    Every internal that is read is shape-checked first (Shape), nothing is indexed on trust."""
+    if len(path) > 400:
+        raise Shape("object graph deeper than 200 levels below %s (a cycle that is not a Forward?)" % path[:40])
+    if not isinstance(p, Parser):
+        raise Shape("%s at %s is not a Parser" % (type(p).__name__, path or "top"))
     t = type(p)
-    kids = p.children
+    if t is Forward:
+        if id(p) not in fwd_ids:
+            raise Untranslatable("unknown Forward")
+        return ["ref", fwd_ids[id(p)]]
+    if t not in ARITY and t not in (Sequence, Choice, Lift):
+        raise Untranslatable("parser class %s" % t.__name__)
+    kids = _kids(p, path)
+
+    def sub(i):
+        return walk(kids[i], fwd_ids, path + "/%d" % i)
     if t is AnyCharCls:
         return ["any"]
     if t is EOFCls:
         return ["eof"]
     if t is Char:
-        if not (isinstance(p.char, str) and len(p.char) == 1):
-            raise Untranslatable("Char(%r)" % (p.char,))
-        return ["chr", p.char]
+        c = _attr(p, "char", None, path)
+        if not (isinstance(c, str) and len(c) == 1):
+            raise Untranslatable("Char(%r)" % (c,))
+        return ["chr", c]
     if t is InSet:
-        return ["set", "".join(sorted(p.values))]
+        return ["set", _charset(p, "values", path)]
     if t is String:
-        return ["str", "".join(sorted(p.chars)), "".join(sorted(p.echars)), p.min_length]
+        return ["str", _charset(p, "chars", path), _charset(p, "echars", path), _attr(p, "min_length", int, path)]
     if t is Literal:
-        return ["lit", p.chars, None if p.value is Literal._NULL else [p.value], bool(p.ignore_case)]
+        v = _attr(p, "value", None, path)
+        return ["lit", _attr(p, "chars", str, path), None if v is getattr(Literal, "_NULL", None) else [v],
+                bool(_attr(p, "ignore_case", None, path))]
     if t is Sequence:
-        return ["seq", [walk(c, fwd_ids) for c in kids]]
+        return ["seq", [sub(i) for i in range(len(kids))]]
     if t is Choice:
-        return ["cho", [walk(c, fwd_ids) for c in kids]]
+        return ["cho", [sub(i) for i in range(len(kids))]]
     if t is Many:
-        return ["many", walk(kids[0], fwd_ids), p.lower]
+        return ["many", sub(0), _attr(p, "lower", int, path)]
     if t is Until:
-        return ["until", walk(kids[0], fwd_ids), walk(kids[1], fwd_ids)]
+        return ["until", sub(0), sub(1)]
     if t is Opt:
-        return ["opt", walk(kids[0], fwd_ids), [p.default]]
+        return ["opt", sub(0), [_attr(p, "default", None, path)]]
     if t is FollowedBy:
-        return ["fb", walk(kids[0], fwd_ids), walk(kids[1], fwd_ids)]
+        return ["fb", sub(0), sub(1)]
     if t is NotFollowedBy:
-        return ["nfb", walk(kids[0], fwd_ids), walk(kids[1], fwd_ids)]
+        return ["nfb", sub(0), sub(1)]
     if t is KeepLeft:
-        return ["kl", walk(kids[0], fwd_ids), walk(kids[1], fwd_ids)]
+        return ["kl", sub(0), sub(1)]
     if t is KeepRight:
-        return ["kr", walk(kids[0], fwd_ids), walk(kids[1], fwd_ids)]
+        return ["kr", sub(0), sub(1)]
     if t is Map:
-        return ["map", fn_tokens(p.func), walk(kids[0], fwd_ids)]
+        return ["map", fn_tokens(_attr(p, "func", None, path)), sub(0)]
     if t is Lift:
-        return ["lift", fn_tokens(p.func), [walk(c, fwd_ids) for c in kids]]
+        return ["lift", fn_tokens(_attr(p, "func", None, path)), [sub(i) for i in range(len(kids))]]
     if t is Wrapper:
-        return ["wrap", walk(kids[0], fwd_ids)]
-    if t is Forward:
-        if id(p) not in fwd_ids:
-            raise Untranslatable("unknown Forward")
-        return ["ref", fwd_ids[id(p)]]
+        return ["wrap", sub(0)]
     if t is StartTagName:
-        return ["stag", walk(kids[0], fwd_ids)]
+        return ["stag", sub(0)]
     if t is EndTagName:
-        return ["etag", walk(kids[0], fwd_ids), bool(p.ignore_case)]
+        return ["etag", sub(0), bool(_attr(p, "ignore_case", None, path))]
     raise Untranslatable("parser class %s" % t.__name__)
+
+
+ARITY.update({AnyCharCls: 0, EOFCls: 0, Char: 0, InSet: 0, String: 0, Literal: 0, Many: 1, Until: 2, Opt: 1, FollowedBy: 2,
+              NotFollowedBy: 2, KeepLeft: 2, KeepRight: 2, Map: 1, Wrapper: 1, StartTagName: 1, EndTagName: 1})
+
+
+def forward_body(f, fwd_ids, i):
+    """the rule body behind a Forward, shape-checked"""
+    kids = getattr(f, "children", None)
+    if not isinstance(kids, list) or len(kids) != 1:
+        raise Shape("Forward #%d has %s children, a defined Forward has exactly one" % (
+            i, len(kids) if isinstance(kids, list) else "no"))
+    return walk(kids[0], fwd_ids, "rule%d" % i)
 
 
 def tokens(t):
@@ -708,6 +835,20 @@ class Gen(object):
         return [k]
 
     def term(self, d, guarded):
+        """sub-terms are drawn from a small pool WITH REPETITION (the same sub-term 2-4 times in one grammar, at the same
+        level and at different levels): `build(..., pool)` then uses the same Python object for every occurrence"""
+        r = self.rng
+        pool = self.__dict__.setdefault("pool", [])
+        if pool and r.random() < 0.2:
+            t, hasref, depth = r.choice(pool)
+            if (guarded or not hasref) and depth <= d + 1:
+                return json.loads(json.dumps(t))
+        t = self._term(d, guarded)
+        if len(pool) < 6 and r.random() < 0.5:
+            pool.append((t, '"ref"' in json.dumps(t), d))
+        return t
+
+    def _term(self, d, guarded):
         """guarded: a Forward reference is allowed here (something was consumed since the rule was entered)"""
         r = self.rng
         if d <= 0 or r.random() < 0.12:
@@ -836,22 +977,54 @@ def has_tags(t, rules):
     return bool(ks & {"stag", "etag"})
 
 
+def intended(g):
+    """(term, rules) the grammar spec denotes: a tree of occurrences"""
+    return spec_term(g["top"]), [spec_term(r) for r in g["rules"]]
+
+
 def check_grammar(chk, g, inputs, cases, impl_lines, model_lines):
-    """runs implementation + reference on every input; queues the model lines"""
-    top, fwd = build_grammar(g)
-    ids = dict((id(f), i) for i, f in enumerate(fwd))
-    term = walk(top, ids)
-    rules = [walk(f.children[0], ids) for f in fwd]
-    tagged = has_tags(term, rules)
+    """builds the grammar with SHARED sub-parser objects (and, as a control, with a fresh object per occurrence), reads
+    the object graph back, runs implementation + reference on every input; queues the model lines.
+    The model runs the INTENDED term (one child per operand occurrence), not the read-back."""
+    case0 = {"kind": "term", "grammar": g, "input": inputs[0] if inputs else ""}
+    term, rules = intended(g)
+    try:
+        top, fwd = build_grammar(g, share=True)
+        hits = build_grammar.hits
+        ids = dict((id(f), i) for i, f in enumerate(fwd))
+        rb_term = walk(top, ids)
+        rb_rules = [forward_body(f, ids, j) for j, f in enumerate(fwd)]
+        fresh = build_grammar(g, share=False)[0] if hits else None
+    except Shape as e:
+        chk.count("structure:bad-shape")
+        chk.failure("building the grammar gave an object of the wrong shape: %s; the term is %s" % (e, " ".join(tokens(term))), case0)
+        return term, rules
+    except Untranslatable:
+        raise
+    except Hang:
+        raise
+    except Exception as e:
+        chk.failure("building the grammar raised %s: %s" % (type(e).__name__, str(e)[:200]), case0)
+        return term, rules
     rtok = " ".join([str(len(rules))] + [x for r in rules for x in tokens(r)])
     ttok = " ".join(tokens(term))
+    rb = " ".join([str(len(rb_rules))] + [x for r in rb_rules for x in tokens(r)]) + " // " + " ".join(tokens(rb_term))
+    if rb != rtok + " // " + ttok:
+        chk.count("structure:differs")
+        chk.failure("the built objects read back as  %s  — the grammar is  %s  (one child per operand occurrence%s)" % (
+            rb, rtok + " // " + ttok, "; %d operands are objects used before" % hits if hits else ""), case0)
+    if hits:
+        chk.count("grammar:with-shared-objects")
+        chk.count("grammar:shared-occurrences", hits)
+    tagged = has_tags(term, rules)
     ks = set()
     kinds(term, ks)
     for k in ks:
         chk.count("node:" + k)
-    for s in inputs:
+    for n_before, s in enumerate(inputs):
         line, summary, cferr = run_impl(top, s)
-        case = {"kind": "term", "grammar": g, "input": s}
+        # history: the inputs the SAME objects parsed before this one (a replay re-runs them first)
+        case = {"kind": "term", "grammar": g, "input": s, "history": inputs[:n_before]}
         cases.append(case)
         impl_lines.append(line)
         model_lines.append("run\t%s\t%s\t%s\t%s" % (FUEL, rtok, ttok, enc(s)))
@@ -861,6 +1034,12 @@ def check_grammar(chk, g, inputs, cases, impl_lines, model_lines):
             chk.failure("the parser did not terminate within 5 s on %r" % s, case)
             cases.pop(), impl_lines.pop(), model_lines.pop()
             raise StopStream()
+        if fresh is not None:
+            line2 = run_impl(fresh, s)[0]
+            if line2 != line:
+                chk.failure("the same grammar gives %s on %r when its sub-parsers are shared objects and %s when every "
+                            "occurrence is a fresh object" % (line, s, line2), case)
+                continue
         want = reference(term, rules, s)
         if want is None:
             chk.count("reference:no-result")
@@ -943,7 +1122,13 @@ RE_LEAD_SEP = re.compile(r"[\[{]\s*,")
 RE_LEAD_ZERO = re.compile(r"(?<![\d.])-?0\d")
 
 
-def json_impl(doc):
+JSON_HISTORY = []     # the last documents the (one, module-level) JSON grammar object parsed in this process
+
+
+def json_impl(doc, record=True):
+    if record:
+        JSON_HISTORY.append(doc)
+        del JSON_HISTORY[:-13]
     try:
         return ("ok", json_parser.loads(doc))
     except Exception:
@@ -974,7 +1159,8 @@ def json_case(chk, doc, origin):
             finding = "json-leading-separator"
         elif RE_LEAD_ZERO.search(doc):
             finding = "json-leading-zero"
-    chk.failure("JSON grammar gives %r, json.loads gives %r on %r" % (a, b, doc), {"kind": "json", "doc": doc}, finding)
+    chk.failure("JSON grammar gives %r, json.loads gives %r on %r" % (a, b, doc),
+                {"kind": "json", "doc": doc, "history": list(JSON_HISTORY[:-1])}, finding)
     return False
 
 
@@ -1084,9 +1270,20 @@ class OpGen(object):
         if not any(consuming(l) for l in self.leaves):
             self.leaves.append(["chr", "a"])
         self.cleaves = [i for i, l in enumerate(self.leaves) if consuming(l)]
+        # shared SUB-TERM objects S0…: each is built once and then used wherever its name occurs
+        self.shared = []            # [name, expression text]
+        self.shared_cons = {}
+        for i in range(rng.choice([0, 1, 1, 2, 3])):
+            cons = rng.random() < 0.5
+            text, _ = self.expr(rng.choice([1, 1, 2]), cons)
+            self.shared.append(["S%d" % i, text])
+            self.shared_cons["S%d" % i] = cons
 
     def atom(self, cons):
         r = self.rng
+        names = [n for n, _ in self.shared if self.shared_cons[n] or not cons]
+        if names and r.random() < 0.35:
+            return r.choice(names)
         if cons or r.random() < 0.8:
             return "L%d" % (r.choice(self.cleaves) if cons else r.randrange(len(self.leaves)))
         return r.choice(["Opt(L%d)" % r.randrange(len(self.leaves)), "Opt(L%d, %r)" % (r.randrange(len(self.leaves)), r.choice(VALS[1:])),
@@ -1188,6 +1385,50 @@ def op_spec(node):
     raise ValueError("expression form outside the generator: %s" % _ast.dump(node))
 
 
+def spec_kind(sp, shared_specs):
+    """which accumulating class the expression's value is: 'seq' / 'cho' / 'lift' / None"""
+    k = sp[0]
+    if k == "%":
+        return spec_kind(sp[1], shared_specs)
+    if k == "leaf":
+        return spec_kind(shared_specs[sp[1]], shared_specs) if sp[1] in shared_specs else None
+    if k == "bin":
+        return {"+": "seq", "|": "cho", "*": "lift"}.get(sp[1])
+    return {"Sequence": "seq", "Choice": "cho", "Lift": "lift"}.get(k)
+
+
+def aliases_left(sp, shared_specs):
+    """a SHARED Sequence / Choice / Lift object as the LEFT operand of its own accumulating operator: the operator would
+    mutate the shared object (the documented caveat of __add__ / __or__: "use a Wrapper") — outside the term semantics"""
+    k = sp[0]
+    if k == "bin":
+        l = sp[2]
+        while l[0] == "%":
+            l = l[1]
+        if l[0] == "leaf" and l[1] in shared_specs and spec_kind(l, shared_specs) == {"+": "seq", "|": "cho", "*": "lift"}.get(sp[1]):
+            return True
+        return aliases_left(sp[2], shared_specs) or aliases_left(sp[3], shared_specs)
+    return any(aliases_left(x, shared_specs) for x in op_children(sp))
+
+
+def op_children(sp):
+    k = sp[0]
+    if k in ("%", "Many", "Opt", "Wrapper"):
+        return [sp[1]]
+    if k == "bin":
+        return [sp[2], sp[3]]
+    if k == ".map":
+        return [sp[2]]
+    if k in (".sep_by", ".until"):
+        return [sp[1], sp[2]]
+    if k in ("Sequence", "Choice"):
+        return list(sp[1])
+    return []
+
+
+OP_KINDS = {"leaf", "%", "bin", ".map", ".sep_by", ".until", "Many", "Opt", "Wrapper", "Sequence", "Choice", "Lift"}
+
+
 def op_env(leaves):
     """fresh objects for one evaluation (Sequence.__add__ / Choice.__or__ / Lift.__mul__ mutate their left operand)"""
     env = {"Many": Many, "Opt": Opt, "Wrapper": Wrapper, "Sequence": Sequence, "Choice": Choice, "Lift": Lift, "EOF": P.EOF}
@@ -1205,6 +1446,8 @@ def doc_term(sp, env):
     Choice, Lift): `+` / `|` accumulate onto a Sequence / Choice on the LEFT only; everything else nests"""
     k = sp[0]
     if k == "leaf":
+        if sp[1] in env.get("#shared", {}):
+            return doc_term(env["#shared"][sp[1]], env)       # every occurrence of a shared object is its own sub-tree
         return walk(env[sp[1]], {})
     if k == "%":
         return doc_term(sp[1], env)
@@ -1246,6 +1489,8 @@ def op_tokens(sp, env):
     """the operator tree for the driver (`ops`): leaves as terms, operators as themselves"""
     k = sp[0]
     if k == "leaf":
+        if sp[1] in env.get("#shared", {}):
+            return op_tokens(env["#shared"][sp[1]], env)
         return tokens(walk(env[sp[1]], {}))
     if k == "%":
         return ["%"] + op_tokens(sp[1], env)
@@ -1310,25 +1555,57 @@ def construct(t, fns):
     raise ValueError(k)
 
 
-def op_case(chk, expr, leaves, n_inputs, cases, impl_lines, model_lines, rng=None, inputs=None):
-    """one operator expression: build it with the operators, build the documented term with the constructors, read
-    both object graphs back, compare structure and values; queue the model line"""
+def op_case(chk, expr, leaves, n_inputs, cases, impl_lines, model_lines, rng=None, inputs=None, shared=()):
+    """one operator expression: build it with the operators (leaf and shared sub-term OBJECTS used wherever their name
+    occurs), build the documented term with the constructors (a fresh object per occurrence), read both object graphs
+    back, compare structure and values; queue the model line.  Returns False when the expression is outside the term
+    semantics (a shared accumulating object on the left of its own operator)."""
+    shared_specs = {}
+    for name, text in shared:
+        shared_specs[name] = op_spec(_ast.parse(text, mode="eval").body)
     sp = op_spec(_ast.parse(expr, mode="eval").body)
-    env = op_env(leaves)
-    real_op = eval(expr, {"__builtins__": {}}, env)
-    t_op = walk(real_op, {})
+    if aliases_left(sp, shared_specs) or any(aliases_left(x, shared_specs) for x in shared_specs.values()):
+        return False
+    case = {"kind": "operators", "expr": expr, "leaves": leaves, "shared": [list(x) for x in shared], "input": (inputs or [""])[0]}
     env2 = op_env(leaves)
+    env2["#shared"] = shared_specs
     t_doc = doc_term(sp, env2)
-    fns = {}
-    for name, f in env2.items():
-        if name[0] in "FG" and name[1:].isdigit():
-            fns[(name[0],) + tuple(fn_tokens(f))] = f
-    real_ctor = construct(t_doc, fns)
-    if tokens(walk(real_ctor, {})) != tokens(t_doc):
-        raise AssertionError("harness: constructor build does not read back as the documented term")
-    case = {"kind": "operators", "expr": expr, "leaves": leaves}
+    dtok = " ".join(tokens(t_doc))
+    where = "%s (leaves %s%s)" % (expr, json.dumps(leaves), "; shared objects " + "; ".join("%s = %s" % tuple(x) for x in shared) if shared else "")
+    try:
+        env = op_env(leaves)
+        scope = {"__builtins__": {}}
+        for name, text in shared:
+            env[name] = eval(text, scope, env)
+        real_op = eval(expr, scope, env)
+        t_op = walk(real_op, {})
+        fns = {}
+        for name, f in env2.items():
+            if name[0] in "FG" and name[1:].isdigit():
+                fns[(name[0],) + tuple(fn_tokens(f))] = f
+        real_ctor = construct(t_doc, fns)
+        t_ctor = walk(real_ctor, {})
+    except Shape as e:
+        chk.count("operators:bad-shape")
+        chk.failure("the operator expression %s built an object of the wrong shape: %s; the documented term is  %s" % (where, e, dtok), case)
+        return True
+    except Untranslatable:
+        raise
+    except Hang:
+        raise
+    except Exception as e:
+        chk.failure("evaluating the operator expression %s raised %s: %s" % (where, type(e).__name__, str(e)[:200]), case)
+        return True
+    if tokens(t_ctor) != tokens(t_doc):
+        chk.count("operators:constructors-differ")
+        chk.failure("the class constructors given the operands of  %s  built  %s  (one child per operand occurrence is documented)" % (
+            dtok, " ".join(tokens(t_ctor))), case)
+        return True
     same = tokens(t_op) == tokens(t_doc)
     chk.count("operators:structure-" + ("as-documented" if same else "DIFFERS"))
+    if shared or len(set(_ast.dump(n) for n in _ast.walk(_ast.parse(expr)) if isinstance(n, _ast.Name) and n.id[0] in "LS")) < \
+            sum(1 for n in _ast.walk(_ast.parse(expr)) if isinstance(n, _ast.Name) and n.id[0] in "LS"):
+        chk.count("operators:with-repeated-objects")
     ks = set()
     kinds(t_doc, ks)
     for k in ks:
@@ -1338,16 +1615,16 @@ def op_case(chk, expr, leaves, n_inputs, cases, impl_lines, model_lines, rng=Non
     value_diff = None
     otok = " ".join(op_tokens(sp, env2))
     rtok = " ".join(tokens(t_op))
-    for s in inputs:
+    for n_before, s in enumerate(inputs):
         l_op, sum_op, cferr = run_impl(real_op, s)
         l_ct, sum_ct, _ = run_impl(real_ctor, s)
-        c = dict(case, input=s)
+        c = dict(case, input=s, history=list(inputs[:n_before]))
         cases.append(c)
         impl_lines.append("same=1|" + l_op)
         model_lines.append("ops\t%s\t%s\t%s" % (otok, rtok, enc(s)))
-        chk.case(("ops", expr, tuple(map(str, leaves)), s), nontrivial=l_op.startswith("ok"))
+        chk.case(("ops", expr, tuple(map(str, leaves)), tuple(map(str, shared)), s), nontrivial=l_op.startswith("ok"))
         if l_op == "hang" or l_ct == "hang":
-            chk.failure("the parser built by %s did not terminate on %r" % (expr, s), c)
+            chk.failure("the parser built by %s did not terminate on %r" % (where, s), c)
             cases.pop(), impl_lines.pop(), model_lines.pop()
             raise StopStream()
         want = reference(t_doc, [], s)
@@ -1359,13 +1636,14 @@ def op_case(chk, expr, leaves, n_inputs, cases, impl_lines, model_lines, rng=Non
             elif value_diff is None:
                 value_diff = (s, sum_op, want)
     if value_diff is not None:
-        chk.failure("the operator expression %s (leaves %s) returns %s on input %r; the documented term %s returns %s" % (
-            expr, json.dumps(leaves), value_diff[1], value_diff[0], " ".join(tokens(t_doc)), value_diff[2]),
-            dict(case, input=value_diff[0]))
+        chk.failure("the operator expression %s returns %s on input %r; the documented term  %s  (built with a fresh object "
+                    "per operand occurrence) returns %s" % (where, value_diff[1], value_diff[0], dtok, value_diff[2]),
+                    dict(case, input=value_diff[0], history=list(inputs[:inputs.index(value_diff[0])])))
     elif not same:
-        chk.failure("the operator expression %s (leaves %s) builds the term  %s  — the documentation says  %s  "
-                    "(no value difference on the %d inputs tried)" % (expr, json.dumps(leaves), " ".join(tokens(t_op)),
-                                                                     " ".join(tokens(t_doc)), len(inputs)), dict(case, input=inputs[0]))
+        chk.failure("the operator expression %s builds the term  %s  — the documentation says  %s  "
+                    "(no value difference on the %d inputs tried)" % (where, " ".join(tokens(t_op)), dtok, len(inputs)),
+                    dict(case, input=inputs[0]))
+    return True
 
 
 def operators_stream(chk, n_exprs, n_inputs):
@@ -1374,13 +1652,17 @@ def operators_stream(chk, n_exprs, n_inputs):
     corpus = json.load(open(os.path.join(VERIF, "corpus", "C19", "operators.json")))
     try:
         for e in corpus["expressions"]:
-            op_case(chk, e["expr"], e["leaves"], n_inputs, cases, impl_lines, model_lines, inputs=e["inputs"])
+            op_case(chk, e["expr"], e["leaves"], n_inputs, cases, impl_lines, model_lines, inputs=e["inputs"],
+                    shared=e.get("shared", []))
         for i in range(n_exprs):
-            g = OpGen(rng)
-            expr, _ = g.expr(rng.choice([1, 2, 2, 3, 3, 4]))
-            op_case(chk, expr, g.leaves, n_inputs, cases, impl_lines, model_lines, rng=rng)
+            for _ in range(6):
+                g = OpGen(rng)
+                expr, _ = g.expr(rng.choice([1, 2, 2, 3, 3, 4]))
+                if op_case(chk, expr, g.leaves, n_inputs, cases, impl_lines, model_lines, rng=rng, shared=g.shared):
+                    break
+                chk.count("operators:skipped-shared-accumulator-on-the-left")
             if i in (2, 40):
-                chk.sample({"operator-expression": expr, "leaves": g.leaves, "impl": impl_lines[-1], "model-line": model_lines[-1][:300]})
+                chk.sample({"operator-expression": expr, "leaves": g.leaves, "shared": g.shared, "impl": impl_lines[-1], "model-line": model_lines[-1][:300]})
     except StopStream:
         chk.count("operators:stopped-after-hang")
     if model_lines:
@@ -1413,18 +1695,25 @@ def witnesses(chk):
         chk.witnesses.append({"finding": fid, "inputs": docs, "reproduced": hit})
         if hit:
             chk.finding_reproduced(fid)
-    p1, _ = build_grammar(TAG_WITNESS)
-    p2, _ = build_grammar(TAG_CONTROL)
-    hit = run_impl(p1, "bab")[1] == "perr" and run_impl(p2, "bab")[1].startswith("value")
-    chk.witnesses.append({"finding": "tag-stack-not-restored", "input": "bab", "reproduced": hit})
-    if hit:
-        chk.finding_reproduced("tag-stack-not-restored")
-    p3, _ = build_grammar(FERR_WITNESS)
-    line, summary, cferr = run_impl(p3, "a")
-    hit = summary.startswith("value") and cferr
-    chk.witnesses.append({"finding": "function-error-swallowed", "input": "a", "impl": line, "reproduced": hit})
-    if hit:
-        chk.finding_reproduced("function-error-swallowed")
+    try:
+        p1, _ = build_grammar(TAG_WITNESS)
+        p2, _ = build_grammar(TAG_CONTROL)
+        hit = run_impl(p1, "bab")[1] == "perr" and run_impl(p2, "bab")[1].startswith("value")
+        chk.witnesses.append({"finding": "tag-stack-not-restored", "input": "bab", "reproduced": hit})
+        if hit:
+            chk.finding_reproduced("tag-stack-not-restored")
+        p3, _ = build_grammar(FERR_WITNESS)
+        line, summary, cferr = run_impl(p3, "a")
+        hit = summary.startswith("value") and cferr
+        chk.witnesses.append({"finding": "function-error-swallowed", "input": "a", "impl": line, "reproduced": hit})
+        if hit:
+            chk.finding_reproduced("function-error-swallowed")
+    except Hang:
+        raise
+    except Exception as e:
+        # a changed implementation may not even build the witness grammars: that is a finding of the run, not a crash
+        chk.failure("building / running the witness grammars raised %s: %s" % (type(e).__name__, str(e)[:200]),
+                    {"kind": "term", "grammar": TAG_WITNESS, "input": "bab"})
 
 
 # --------------------------------------------------------------------------- run
@@ -1432,7 +1721,7 @@ def witnesses(chk):
 def run(chk):
     rng = chk.rng
     quick = chk.tier == "quick"
-    n_grammars = 3800 if quick else 40000
+    n_grammars = 3000 if quick else 30000
     n_inputs = 14 if quick else 30
     n_json = 3000 if quick else 60000
     n_tag = 1500 if quick else 20000
@@ -1442,6 +1731,10 @@ def run(chk):
                 "sampled derivations of the term, their one-edit neighbours, and random strings up to length 6; "
                 "non-trivial = process() succeeded, distinct = (term, rules, input) not seen before" % n_inputs)
     chk.assumptions = [
+        "object sharing is invisible to the semantics: a model term is a TREE OF OCCURRENCES (no sharing), the identity of the "
+        "Python parser objects does not matter; this is tied, not assumed — both the combinators and the operators stream draw "
+        "leaf and sub-term OBJECTS from a small pool with repetition (same object 2-4 times, same and different levels), read "
+        "back one child per operand occurrence, and compare values with a fresh-object spelling of the same term and the model",
         "mapped functions are entries of a fixed table (identity, join, len, constant, backtrack-if, raise-if, "
         "sep_by's _accumulate); the theorems hold for every table",
         "str.lower() is modelled on ASCII only (Literal ignore_case / EndTagName ignore_case); inputs are ASCII",
@@ -1486,25 +1779,25 @@ def run(chk):
         if n_div:
             chk.count("model:fuel-exhausted", n_div)
         chk.compare("combinators-vs-model", list(cases), impl_lines, model,
-                    show=lambda c: {"kind": "term", "grammar": c["grammar"], "input": c["input"]})
+                    show=lambda c: {"kind": "term", "grammar": c["grammar"], "input": c["input"], "history": c.get("history", [])})
         del cases[:], impl_lines[:], model_lines[:]
 
     corpus = json.load(open(os.path.join(VERIF, "corpus", "C19", "grammars.json")))
     try:
         for entry in corpus["grammars"]:
-            check_grammar(chk, entry["grammar"], entry["inputs"], cases, impl_lines, model_lines)
+            try:
+                check_grammar(chk, entry["grammar"], entry["inputs"], cases, impl_lines, model_lines)
+            except Untranslatable as e:
+                chk.tie_broken("translation", "object graph not translatable: %s" % e, {"grammar": entry["grammar"]})
         for i in range(n_grammars):
             g = gen_grammar(rng, rng.choice([2, 3, 3, 4, 4, 5]))
+            term, rules = intended(g)
+            inputs = gen_inputs(rng, term, rules, n_inputs)
             try:
-                top, fwd = build_grammar(g)
-                ids = dict((id(f), j) for j, f in enumerate(fwd))
-                term = walk(top, ids)
-                rules = [walk(f.children[0], ids) for f in fwd]
+                check_grammar(chk, g, inputs, cases, impl_lines, model_lines)
             except Untranslatable as e:
                 chk.tie_broken("translation", "object graph not translatable: %s" % e, {"grammar": g})
                 continue
-            inputs = gen_inputs(rng, term, rules, n_inputs)
-            check_grammar(chk, g, inputs, cases, impl_lines, model_lines)
             if i in (3, 500):
                 chk.sample({"grammar": g, "term": " ".join(tokens(term)), "inputs": inputs[:4],
                             "impl": impl_lines[-len(inputs):][:4]})
@@ -1515,7 +1808,7 @@ def run(chk):
     flush()
 
     # ---- stream 1b: the grammar-building operators, every grouping (Props.C19 plus_* / alt_* theorems)
-    operators_stream(chk, 1200 if quick else 15000, 6 if quick else 10)
+    operators_stream(chk, 1000 if quick else 15000, 6 if quick else 10)
 
     # ---- stream 2: JSON grammar vs json.loads on the documented subset  (+ the TRANSLATED grammar in the model)
     jdocs = []
@@ -1632,38 +1925,35 @@ def replay(data):
     bad = False
     if kind == "term":
         g, s = c["grammar"], c["input"]
-        top, fwd = build_grammar(g)
-        ids = dict((id(f), j) for j, f in enumerate(fwd))
-        term = walk(top, ids)
-        rules = [walk(f.children[0], ids) for f in fwd]
-        line, summary, cferr = run_impl(top, s)
-        want = reference(term, rules, s)
-        rtok = " ".join([str(len(rules))] + [x for r in rules for x in tokens(r)])
-        m = run_driver("C19", ["run\t%s\t%s\t%s\t%s" % (FUEL, rtok, " ".join(tokens(term)), enc(s))])[0].rsplit("|wf=", 1)[0]
-        print("term          :", " ".join(tokens(term)))
-        print("implementation:", line)
-        print("model         :", m)
-        print("PEG reference :", want, " implementation reports:", summary)
-        bad = want is not None and want != summary
-        if m != line:
-            print("model and implementation DISAGREE")
-    elif kind == "operators":
-        class _C(object):
-            def __init__(self):
-                self.failures, self.dist = [], {}
-            def count(self, *a): pass
-            def case(self, *a, **k): pass
-            def failure(self, desc, case, finding=None): self.failures.append(desc)
-        cc = _C()
+        cc = _Rec()
         cs, il, ml = [], [], []
-        op_case(cc, c["expr"], c["leaves"], 0, cs, il, ml, inputs=[c["input"]])
-        m = run_driver("C19", ml)[0].rsplit("|wf=", 1)[0]
-        print("operator-built object:", il[0])
-        print("model (plus/alt/mul) :", m, "" if m == il[0] else "  <-- DISAGREE (same=0: the built structure is not the model's term)")
+        term, rules = check_grammar(cc, g, list(c.get("history", [])) + [s], cs, il, ml)
+        print("term          :", " ".join(tokens(term)), " rules:", [" ".join(tokens(r)) for r in rules])
+        if ml:
+            for cse, i_line, m in zip(cs, il, run_driver("C19", ml)):
+                m = m.rsplit("|wf=", 1)[0]
+                print("input %r" % cse["input"])
+                print("  implementation:", i_line)
+                print("  model         :", m, "" if m == i_line else "  <-- DISAGREE")
+                bad = bad or m != i_line
+        for d in cc.failures:
+            print(d)
+        bad = bad or bool(cc.failures)
+    elif kind == "operators":
+        cs, il, ml = [], [], []
+        op_case(cc, c["expr"], c["leaves"], 0, cs, il, ml, inputs=list(c.get("history", [])) + [c["input"]], shared=c.get("shared", []))
+        if ml:
+            for cse, i_line, m in zip(cs, il, run_driver("C19", ml)):
+                m = m.rsplit("|wf=", 1)[0]
+                print("input %r" % cse["input"])
+                print("  operator-built object:", i_line)
+                print("  model (plus/alt/mul) :", m, "" if m == i_line else "  <-- DISAGREE (same=0: the built structure is not the model's term)")
         for d in cc.failures:
             print(d)
         bad = bool(cc.failures)
     elif kind == "json":
+        for h in c.get("history", []):          # what the same grammar object parsed before
+            json_impl(h)
         a, b = json_impl(c["doc"]), json_ref(c["doc"])
         print("json grammar:", a, " json.loads:", b)
         real = call_canon(json_parser.Top, c["doc"])
@@ -1695,6 +1985,22 @@ def replay(data):
         print("nothing to replay in this file (kind=%r)" % data.get("kind"))
     print("property violated on this input" if bad else "property holds on this input")
     return 1 if bad else 0
+
+
+class _Rec(object):
+    """a Check stand-in for replays: records what the oracle says"""
+
+    def __init__(self):
+        self.failures, self.dist = [], {}
+
+    def count(self, *a, **k):
+        pass
+
+    def case(self, *a, **k):
+        pass
+
+    def failure(self, desc, case, finding=None):
+        self.failures.append(desc + (" [known finding %s]" % finding if finding else ""))
 
 
 def _tuplify(x):
